@@ -71,3 +71,8 @@ t_fb            = w:t ; text=excl
 
 def body_schema():
     return parse(BODY, NS, "body")
+
+
+def table_schema():
+    """For the table view: formulas are not part of a cell string (the tables never rendered them)."""
+    return parse(BODY.replace("oMath           = m:oMath ; text=vis", "oMath           = m:oMath"), NS, "body")
